@@ -23,7 +23,7 @@ func genC12(r *Rand, tier, profile string) *Case {
 		t += int64(r.Range(200, 2500))
 		k := int64(r.PickInt([]int{5, 10, 30}))
 		node := r.Intn(nodes)
-		ts = append(ts, tstep{t, Step{K: "connect", C: i, N: node, S: "dup", U: "u", T: "p", I: k, G: i > 1}})
+		ts = append(ts, tstep{t, Step{K: "connect", C: i, N: node, S: "dup", U: "u", T: "p", I: k, G: i > 1 && r.Bool(0.7)}})
 		ts = append(ts, tstep{t + int64(r.Range(5, 200)), Step{K: "sub", C: i, L: []string{fmt.Sprintf("k/%d/#", i), "k/all"}, QL: []int{r.Intn(2), 0}, I: 1}})
 		// what the session does later, possibly after it has been displaced
 		for n := r.Intn(4); n > 0; n-- {
@@ -97,9 +97,41 @@ func judgeTakeover(w *world) {
 	nf := w.lifeFactsOf(newest)
 	newestAlive := nf.cause == "" && longestGap(w, newest, endMs) <= nf.k*950
 	// every node resolves the id to the newest session
+	// without the proviso (the accepting node had not heard of the earlier session) nobody removes
+	// the earlier record before that session's own teardown: then only the resolution is judged
+	proviso := true
+	first := true
+	for _, s := range w.c.Steps {
+		if s.K == "connect" && s.S == "dup" {
+			if !first && !s.G {
+				proviso = false
+			}
+			first = false
+		}
+	}
 	if newestAlive {
+		for _, n := range w.nodes {
+			if !n.alive {
+				continue
+			}
+			md, err := n.dstate.SessionMetadatas().ByClientID("dup", newest.mount)
+			if err != nil || md.SessionID != newest.sid {
+				w.o.violate("C12", "not-resolved-to-newest", len(w.c.Steps), endMs, map[string]string{"by": "ByClientID"},
+					"at the end node %d resolves client id dup to %q (%v); the newest session is %s (client %d on node %d)", n.idx, md.SessionID, err, newest.sid, newest.idx, newest.node)
+				break
+			}
+		}
 		for ni, l := range final.Listings {
 			lines := sessionLines(l, "dup")
+			if !proviso {
+				keep := lines[:0:0]
+				for _, x := range lines {
+					if strings.HasPrefix(x, "S|"+newest.sid+"|") {
+						keep = append(keep, x)
+					}
+				}
+				lines = keep
+			}
 			if len(lines) != 1 || !strings.Contains(lines[0], "|"+newest.sid+"|") && !strings.HasPrefix(lines[0], "S|"+newest.sid+"|") {
 				w.o.violate("C12", "not-resolved-to-newest", len(w.c.Steps), endMs, map[string]string{"records": fmt.Sprint(len(lines))},
 					"after the final settle node %d lists %v for client id dup; the newest session is %s (client %d on node %d)", ni, lines, newest.sid, newest.idx, newest.node)
@@ -148,6 +180,12 @@ func judgeTakeover(w *world) {
 				continue
 			}
 			w.o.probe("pings_after_host_knew_successor")
+			if knew.oldLive {
+				w.o.probe("pings_on_host_holding_both_records_live")
+				if succ.connectAt/1000 == old.connectAt/1000 {
+					w.o.probe("pings_on_host_holding_both_records_live_connected_same_second")
+				}
+			}
 			// answered?
 			answered := false
 			for _, rx := range w.obs {
@@ -248,6 +286,17 @@ func genC13(r *Rand, tier, profile string) *Case {
 		c.Knobs["silent20"] = 1
 		t += 2*k*1000 + 6000
 	}
+	if nodes > 1 && cause != "stopnode" && r.Bool(0.3) {
+		// the hosting node fails some time after the session has ended: shortly (the removal of the
+		// record may not have left the node yet) or long after (it has had every chance to spread)
+		gap := int64(r.Range(20, 400))
+		if r.Bool(0.6) {
+			gap = int64(r.Range(1500, 8000))
+		}
+		t += gap
+		ts = append(ts, tstep{t, Step{K: "stopnode", N: dnode}})
+		t += 9000
+	}
 	t += 4000
 	ts = append(ts, tstep{t, Step{K: "sleep", I: 10000}})
 	kOf := map[int]int64{20: k}
@@ -321,6 +370,25 @@ func judgeWills(w *world) {
 			attrs := map[string]string{"cause": f.cause, "same_mount": fmt.Sprint(cl.mount == dying.mount), "same_node": fmt.Sprint(cl.node == dying.node)}
 			if st, stopped := w.stopAt[dying.node]; stopped && f.cause != "stopnode" {
 				attrs["node_died_after_session_end"] = fmt.Sprint(st >= f.causeAt)
+				// did the host itself drop the record before it died, and had that removal been
+				// handed to the watcher's node when it was told of the failure?
+				_, gerr := w.nodes[dying.node].dstate.SessionMetadatas().Get(dying.sid)
+				attrs["host_removed_record"] = fmt.Sprint(gerr != nil)
+				reached := false
+				if told, ok := w.leaveAt[[2]int{cl.node, dying.node}]; ok {
+					var fo kEntry
+					for _, r := range w.recv {
+						if r.Node == cl.node && r.Src != "emit" && r.AtMs < told {
+							for _, e := range r.Entries {
+								if e.Key == "S|"+dying.sid && e.Stamp > fo.Stamp {
+									fo = e
+								}
+							}
+						}
+					}
+					reached = fo.Stamp > 0 && !fo.Live
+				}
+				attrs["removal_reached_watcher_node"] = fmt.Sprint(reached)
 			}
 			if f.cause == "stopnode" {
 				lo, hi := int64(1<<62), int64(0)
@@ -415,7 +483,16 @@ func genC16(r *Rand, tier, profile string) *Case {
 			a, b := tab[r.Intn(len(tab))], tab[r.Intn(len(tab))]
 			u, p = a.u, b.p
 		case x < 9: // unknown user
-			u, p = "mallory", r.Pick(passes)
+			// names whose digests fall before, between and after the configured ones, mostly with a
+			// password that is valid for somebody else
+			u = r.Pick([]string{"mallory", "zed", "a", "root", "ghost", "nobody", "x1", "q", "trent", "oscar"})
+			if r.Bool(0.3) {
+				u = fmt.Sprintf("u%d", r.Intn(1000))
+			}
+			p = r.Pick(passes)
+			if r.Bool(0.7) {
+				p = tab[r.Intn(len(tab))].p
+			}
 		default:
 			u, p = "", r.Pick([]string{"", "pw1"})
 		}
@@ -556,6 +633,11 @@ func genC17(r *Rand, tier, profile string) *Case {
 	}
 	var cls []cinfo
 	filters := []string{"#", "+", "+/x", "a/#", "a/x", "+/+", "a/+"}
+	// levels that are ordinary strings to MQTT but mean something to path-like code: "..", ".",
+	// empty levels and the names of the other mount points
+	oddFilters := []string{"../#", "../+/#", "../tb/#", "../ta/#", "+/+/#", "/#", "./#", "tb/#", "ta/#", "../tb/a/x", "a//x"}
+	oddTopics := []string{"../tb/a/x", "../ta/a/x", "../tc/x", "..", "../tb/a", "./a/x", "/a/x", "a//x", "a/x/", "tb/a/x", "ta/x", "a/./x", "a/../x", "../../tb/a/x"}
+	odd := r.Bool(0.5)
 	for _, tn := range tenants {
 		for k := r.Range(1, 3); k > 0; k-- {
 			cid++
@@ -575,7 +657,11 @@ func genC17(r *Rand, tier, profile string) *Case {
 			var fs []string
 			var qs []int
 			for j := r.Range(1, 2); j > 0; j-- {
-				fs = append(fs, r.Pick(filters))
+				if odd && r.Bool(0.3) {
+					fs = append(fs, r.Pick(oddFilters))
+				} else {
+					fs = append(fs, r.Pick(filters))
+				}
 				qs = append(qs, r.Intn(2))
 			}
 			ts = append(ts, tstep{t + 5, Step{K: "sub", C: cid, L: fs, QL: qs, I: 1}})
@@ -591,7 +677,11 @@ func genC17(r *Rand, tier, profile string) *Case {
 	for n := r.Range(2, 10); n > 0; n-- {
 		p := cls[r.Intn(len(cls))]
 		tag++
-		ts = append(ts, tstep{t, Step{K: "pub", C: p.id, T: r.Pick(topics), S: fmt.Sprintf("%s-m%d", p.tenant, tag), Q: r.Intn(2), F: r.Bool(0.25), I: int64(100 + tag)}})
+		topic := r.Pick(topics)
+		if odd && r.Bool(0.4) {
+			topic = r.Pick(oddTopics)
+		}
+		ts = append(ts, tstep{t, Step{K: "pub", C: p.id, T: topic, S: fmt.Sprintf("%s-m%d", p.tenant, tag), Q: r.Intn(2), F: r.Bool(0.25), I: int64(100 + tag)}})
 		t += int64(r.Range(3, 60))
 	}
 	// some sessions die without DISCONNECT (wills), then late subscribers check retained state
@@ -809,6 +899,50 @@ func genHostileBytes(r *Rand) []byte {
 	return b
 }
 
+
+// genHostileSequence: well-formed packets in an order or with identifiers the protocol forbids
+// (the state machine rather than the decoder is the target).
+func genHostileSequence(r *Rand) [][]byte {
+	n := r.Range(1, 9)
+	wrong := func() int { return r.PickInt([]int{tPUBACK, tPUBREC, tPUBREL, tPUBCOMP}) }
+	pub := func(q, id int, dup bool) []byte {
+		return encPublish(r.Pick([]string{"t/h", "wit/h", "wit/x"}), []byte("hostile"), q, false, dup, id)
+	}
+	var out [][]byte
+	switch r.Intn(8) {
+	case 0: // an acknowledgement of the wrong type for an exchange the client itself opened
+		out = append(out, pub(2, n, false), encAck(r.PickInt([]int{tPUBACK, tPUBREC, tPUBCOMP}), n))
+		if r.Bool(0.5) {
+			out = append(out, encAck(tPUBREL, n))
+		}
+	case 1: // repeated PUBLISH / PUBREL with one identifier
+		out = append(out, pub(2, n, false), pub(2, n, r.Bool(0.5)), encAck(tPUBREL, n), encAck(tPUBREL, n), pub(2, n, true))
+	case 2: // acknowledgements for nothing
+		for k := r.Range(1, 5); k > 0; k-- {
+			out = append(out, encAck(wrong(), r.Intn(12)))
+		}
+	case 3: // the same identifier on several QoS 1 publishes at once
+		for k := r.Range(2, 6); k > 0; k-- {
+			out = append(out, pub(1, n, r.Bool(0.3)))
+		}
+	case 4: // subscribe / unsubscribe with clashing identifiers, then wrong-type acks for whatever
+		// the broker may have sent meanwhile
+		out = append(out, encSubscribe(n, []string{"wit/#"}, []int{r.Range(1, 2)}), encUnsubscribe(n, []string{"wit/#"}), encSubscribe(n, []string{"wit/#", "wit/#"}, []int{2, 1}))
+		for id := 1; id <= 4; id++ {
+			out = append(out, encAck(wrong(), id))
+		}
+	case 5: // traffic after DISCONNECT
+		out = append(out, pub(2, n, false), encSimple(tDISCONNECT), encAck(tPUBREL, n), pub(1, n+1, false), encSimple(tPINGREQ))
+	case 6: // a flood of keep-alive requests and server-only packets
+		for k := r.Range(5, 30); k > 0; k-- {
+			out = append(out, encSimple(r.PickInt([]int{tPINGREQ, tPINGREQ, tPINGRESP, tCONNACK, tSUBACK})))
+		}
+	default: // QoS 2 handshakes interleaved on neighbouring identifiers, each finished wrongly
+		out = append(out, pub(2, n, false), pub(2, n+1, false), encAck(tPUBCOMP, n), encAck(tPUBREL, n+1), encAck(tPUBACK, n+1), encAck(tPUBREL, n))
+	}
+	return out
+}
+
 func genC18(r *Rand, tier, profile string) *Case {
 	c := &Case{Profile: "hostile", Knobs: map[string]int64{"nodes": 1}}
 	var ts []tstep
@@ -836,14 +970,30 @@ func genC18(r *Rand, tier, profile string) *Case {
 			ts = append(ts, tstep{t, Step{K: "rawconnect", C: cid, N: 0}})
 			t += 3
 		}
-		for k := r.Range(1, 4); k > 0; k-- {
-			b := genHostileBytes(r)
-			st := Step{K: "raw", C: cid, B: b}
-			if r.Bool(0.3) && len(b) > 2 {
-				st.J = int64(r.Range(1, len(b)-1))
+		if r.Bool(0.35) {
+			pk := genHostileSequence(r)
+			if r.Bool(0.3) { // all in one write
+				var all []byte
+				for _, b := range pk {
+					all = append(all, b...)
+				}
+				pk = [][]byte{all}
 			}
-			ts = append(ts, tstep{t, st})
-			t += int64(r.Range(5, 200))
+			for _, b := range pk {
+				ts = append(ts, tstep{t, Step{K: "raw", C: cid, B: b}})
+				t += int64(r.PickInt([]int{0, 1, 5, 40}))
+			}
+			t += 50
+		} else {
+			for k := r.Range(1, 4); k > 0; k-- {
+				b := genHostileBytes(r)
+				st := Step{K: "raw", C: cid, B: b}
+				if r.Bool(0.3) && len(b) > 2 {
+					st.J = int64(r.Range(1, len(b)-1))
+				}
+				ts = append(ts, tstep{t, st})
+				t += int64(r.Range(5, 200))
+			}
 		}
 		switch r.Intn(3) {
 		case 0:
